@@ -255,7 +255,7 @@ V("c11-shared-rng-in-region", "C11", {"rule": "C11c", "contains": "region"},
 V("c11-prange-shared-scalar-index", "C11", {"rule": "C11d", "contains": "prange"},
   ("piquasso/_math/hafnian/plain_hafnian.py", "        delta = np.empty_like(all_edges)\n\n        for i in range(number_of_reps):\n            no_of_edges = all_edges[i]\n            no_of_kept_edges = kept_edges[i]\n\n            fact ^= (no_of_edges - no_of_kept_edges) % 2\n\n            comb_input = (no_of_edges, no_of_kept_edges)",
    "        delta = np.empty_like(all_edges)\n        all_edges[0] = all_edges[0]\n\n        for i in range(number_of_reps):\n            no_of_edges = all_edges[i]\n            no_of_kept_edges = kept_edges[i]\n\n            fact ^= (no_of_edges - no_of_kept_edges) % 2\n\n            comb_input = (no_of_edges, no_of_kept_edges)"))
-V("c11-omp-no-remainder", "C11", {"rule": "C11d", "contains": "remainder"},
+V("c11-omp-no-remainder", "C11", {"rule": "C11d", "contains": "last job ends"},
   ("src/permanent.cpp", "        if (job_idx == concurrency - 1)\n        {\n            offset_max = idx_max - 1;\n        }\n", ""))
 V("c11-omp-shared-accumulator", "C11", {"rule": "C11d", "contains": "shared"},
   ("src/permanent.cpp", "        TComplex &addend_loc = thread_results[static_cast<unsigned int>(job_idx)];", "        TComplex &addend_loc = thread_results[0];"))
@@ -480,3 +480,18 @@ V("c19-qubits-sorted", "C19", {"rule": "C19c", "contains": "qubit-operand-order"
   (DR, "        qubit_indices = [qc.find_bit(q).index for q in instr_qiskit.qubits]", "        qubit_indices = sorted(qc.find_bit(q).index for q in instr_qiskit.qubits)"))
 V("c19-preserving-abs-guard", "C19", "silent",
   (DR, "    if not np.isclose(theta, 0.0):", "    if abs(theta) > 1e-12:"))
+
+# --- job partition proved as a tiling (C11d)
+V("c11-partition-overlap", "C11", {"rule": "C11d", "contains": "starts right after"},
+  ("src/permanent.cpp", "        int64_t offset_max = (job_idx + 1) * work_batch - 1;", "        int64_t offset_max = (job_idx + 1) * work_batch;"))
+V("c11-partition-inner-loop-short", "C11", {"rule": "C11d", "contains": "own loop"},
+  ("src/permanent_laplace.cpp", "i < offset_max + 1; i++)", "i < offset_max; i++)"))
+V("c11-partition-balanced-wrong-end", "C11", {"rule": "C11d", "contains": "partition"},
+  ("src/permanent.cpp", "        int64_t initial_offset = job_idx * work_batch;\n        int64_t offset_max = (job_idx + 1) * work_batch - 1;\n        if (job_idx == concurrency - 1)\n        {\n            offset_max = idx_max - 1;\n        }\n",
+   "        int64_t remainder = idx_max % concurrency;\n        int64_t shift = job_idx < remainder ? job_idx : remainder;\n        int64_t initial_offset = job_idx * work_batch + shift;\n        int64_t offset_max = (job_idx + 1) * work_batch + shift - 1;\n"))
+V("c11-preserving-balanced-partition", "C11", "silent",
+  ("src/permanent.cpp", "        int64_t initial_offset = job_idx * work_batch;\n        int64_t offset_max = (job_idx + 1) * work_batch - 1;\n        if (job_idx == concurrency - 1)\n        {\n            offset_max = idx_max - 1;\n        }\n",
+   "        int64_t remainder = idx_max % concurrency;\n        int64_t shift = job_idx < remainder ? job_idx : remainder;\n        int64_t next_shift = job_idx + 1 < remainder ? job_idx + 1 : remainder;\n        int64_t initial_offset = job_idx * work_batch + shift;\n        int64_t offset_max = (job_idx + 1) * work_batch + next_shift - 1;\n"))
+V("c11-preserving-ternary-remainder", "C11", "silent",
+  ("src/permanent.cpp", "        int64_t offset_max = (job_idx + 1) * work_batch - 1;\n        if (job_idx == concurrency - 1)\n        {\n            offset_max = idx_max - 1;\n        }\n",
+   "        int64_t offset_max = (job_idx == concurrency - 1) ? idx_max - 1 : (job_idx + 1) * work_batch - 1;\n"))
